@@ -311,6 +311,12 @@ def check_run(s: S.Sim, profile: str, res: CompResult, ops: list[str]) -> None:
              f"while {npend} tests are still unassigned: it cannot start its last test and nothing obliges the controller to send more", {"breaks": s.q_breaks[:5]})
     if len(set(s.ready_ids)) != len(s.ready_ids):
         fire(["C02"], "worker-id-reused", f"a worker id reported ready twice: {s.ready_ids} (hypothesis of C02_controller_load)")
+    untagged = [p for p in s.published if p[0] == "test" and p[1] is None]
+    if untagged:
+        p0 = untagged[0]
+        fire(["C12", "C03" if p0[3] == "???" else "C04"], "report-without-worker",
+             f"the report for {p0[2]} ({'crash report' if p0[3] == '???' else p0[3]}) reached the reporting hooks without the identity of its worker "
+             "(no `node`): consumers cannot tell which worker it concerns")
     written_off_alive = [w.id for w in s.workers if cfg.boot_crash.get(w.number) == "garbage" and w.pc not in ("boot", "collect")]
     if written_off_alive:
         # One root cause, one signature: after an undecodable message the worker is written off (its tests are re-dispatched, a
